@@ -36,7 +36,10 @@ def main():
             return 3
         env = dict(os.environ, PYTHONPATH=f"{wt}/src")
         os.makedirs(os.path.join(wt, "out", "m1"), exist_ok=True)
-        shutil.copy(demo, os.path.join(wt, "out", "m1", "demo.py"))
+        import re as _re
+        txt = open(demo, encoding="utf-8").read()
+        txt = _re.sub(r"/tmp/seed/C\d\d", wt, txt)  # demos written in an agent's worktree may assert their own location
+        open(os.path.join(wt, "out", "m1", "demo.py"), "w", encoding="utf-8").write(txt)
         rc0, o0 = sh("/venv/bin/python out/m1/demo.py", cwd=wt, env=env)
         res["demo_without"] = rc0
         rc, out = sh(f"git apply {patch}", cwd=wt)
